@@ -136,6 +136,13 @@ func Note(format string, a ...interface{}) {
 	r.mu.Unlock()
 }
 
+// Count adds n to a named counter reported with the observations.
+func Count(name string, n int) {
+	r.mu.Lock()
+	r.notes[name] += n
+	r.mu.Unlock()
+}
+
 // Tier returns "quick" or "thorough".
 func Tier() string {
 	if os.Getenv("VERIF_TIER") == "thorough" {
